@@ -313,8 +313,8 @@ class _FnRun:
                     start, step = _const_int(it0.args[0]), (_const_int(it0.args[2]) if len(it0.args) == 3 else 1)
                     if (start is not None and start != 0) or (step is not None and step != 1):
                         self.viol4_at("instance-loop@%d:coverage" % n.stmt.lineno if False else "instance-loop:coverage",
-                                      "the per-instance loop runs over range(%s) of the instances in %s: instances are skipped, their "
-                                      "output rows are never computed" % (", ".join(astq.canon(a) for a in it0.args),
+                                      "the per-instance loop runs over range(%s) of the instances in %s: the instances are not visited "
+                                      "exactly once each (skipped / visited twice through a negative position)" % (", ".join(astq.canon(a) for a in it0.args),
                                                                           qualname(self.fn, self.defcls)), self.loc(n.stmt))
             if n.kind == "loop" and isinstance(n.stmt, ast.For) and self.instance_iter(n.stmt.iter, env):
                 loop = n.stmt
@@ -410,6 +410,9 @@ class _FnRun:
         elif node.kind == "loop":
             for nm in _target_names(st.target):
                 out.pop(nm, None)
+            iv = self.index_var_kind(st.iter, env) if isinstance(st.target, ast.Name) else None
+            if iv is not None:
+                out[st.target.id] = _fs(("idxvar", iv))
         elif node.kind == "with":
             for it in st.items:
                 if it.optional_vars is not None:
@@ -637,11 +640,10 @@ class _FnRun:
         if isinstance(e, ast.Subscript) and isinstance(e.value, ast.Attribute) and isinstance(e.value.value, ast.Name):
             a, base = e.value.attr, one(e.value.value.id)
             if a == "shape" and base is not None:
-                k = e.slice
-                kv = k.value if isinstance(k, ast.Constant) else (
-                    -k.operand.value if isinstance(k, ast.UnaryOp) and isinstance(k.op, ast.USub)
-                    and isinstance(k.operand, ast.Constant) else None)
+                kv = _const_int(e.slice)
                 if isinstance(kv, int) and not isinstance(kv, bool):
+                    if base == ("rows",):
+                        return _fs(("dim", "instances" if kv == 0 else "other"))
                     if base in (NP, PD) and kv in DIMKIND[base]:
                         return _fs(("dim", DIMKIND[base][kv]))
                     if base == ("cell",) and kv in (0, -1):
@@ -688,6 +690,45 @@ class _FnRun:
                         out |= set(sm.retdim)
                     return frozenset(out) or None
         return None
+
+    def index_var_kind(self, it, env):
+        """`range(D)` / `range(0, D)` with D a known axis length -> that axis ('instances' / 'columns' / 'time' / 'other')."""
+        if isinstance(it, ast.Call) and not it.keywords and 1 <= len(it.args) <= 2:
+            r = self.resolve(it)
+            if r[0] == "ext" and r[1] == "builtins.range" and (len(it.args) == 1 or _const_int(it.args[0]) == 0):
+                d = self.eval_value(it.args[-1], env)
+                if d and len(d) == 1:
+                    (c,) = tuple(d)
+                    if isinstance(c, tuple) and c[0] == "dim":
+                        return c[1]
+        return None
+
+    def index_use(self, sub, env):
+        """panel[i] / panel[i, ...] / panel.iloc[i, ...] with i a loop variable over another axis than the instances."""
+        base, idx = sub.value, sub.slice
+        first = idx.elts[0] if isinstance(idx, ast.Tuple) and idx.elts else idx
+        if not isinstance(first, ast.Name):
+            return
+        st = env.get(first.id)
+        if not st or len(st) != 1:
+            return
+        (c,) = tuple(st)
+        if not (isinstance(c, tuple) and c[0] == "idxvar" and c[1] != "instances"):
+            return
+        holder = base.value if isinstance(base, ast.Attribute) and base.attr == "iloc" else base
+        if not isinstance(holder, ast.Name):
+            return
+        hs = env.get(holder.id)
+        if not hs or len(hs) != 1:
+            return
+        (h,) = tuple(hs)
+        positional_first_axis = (h == NP and holder is base) or (h == ("rows",) and holder is base) or (
+            h == PD and holder is not base)
+        if positional_first_axis:
+            self.viol4_at("instance-index:%s" % c[1],
+                          "%s selects an instance by position, but the position runs over the %s axis (its loop is range over a "
+                          "length that is not the number of instances): instances are skipped / read out of range in %s"
+                          % (astq.canon(sub)[:50], c[1], qualname(self.fn, self.defcls)), self.loc(sub))
 
     def instance_iter(self, it, env):
         """Does iterating ``it`` visit the instances of the batch one by one?"""
@@ -907,18 +948,18 @@ class _FnRun:
         if not env:
             return
 
-        def visit(n):
+        def visit(n, env=env):
             if isinstance(n, ast.IfExp):
                 t = self.truth_env(n.test, env)
-                visit(n.test)
+                visit(n.test, env)
                 if t is not False:
-                    visit(n.body)
+                    visit(n.body, env)
                 if t is not True:
-                    visit(n.orelse)
+                    visit(n.orelse, env)
                 return
             if isinstance(n, ast.BoolOp):
                 for v in n.values:
-                    visit(v)
+                    visit(v, env)
                     t = self.truth_env(v, env)
                     if (isinstance(n.op, ast.And) and t is False) or (isinstance(n.op, ast.Or) and t is True):
                         break
@@ -927,21 +968,40 @@ class _FnRun:
                 return
             if isinstance(n, ast.Lambda):
                 shadow = set(astq.all_param_names(n)) if hasattr(n, "args") else set()
-                if any(isinstance(x, ast.Name) and x.id in env and x.id not in shadow for x in ast.walk(n.body)):
+                if any(isinstance(x, ast.Name) and x.id in env and x.id not in shadow
+                       and any(c in (NP, PD) for c in env[x.id]) for x in ast.walk(n.body)):
                     self.und("lambda", "panel captured by a lambda", n)
                 return
             if isinstance(n, (ast.ListComp, ast.SetComp, ast.GeneratorExp, ast.DictComp)):
+                inner = env
                 for gen in n.generators:
                     for nm in _target_names(gen.target):
-                        if nm in env:
+                        if nm in env and any(c in (NP, PD) for c in env[nm]):
                             self.und("comprehension-shadow", "comprehension variable shadows the panel name %s" % nm, n)
                             return
+                    visit(gen.iter, inner)
+                    iv = self.index_var_kind(gen.iter, inner) if isinstance(gen.target, ast.Name) else None
+                    inner = dict(inner)
+                    for nm in _target_names(gen.target):
+                        inner.pop(nm, None)
+                    if iv is not None:
+                        inner[gen.target.id] = _fs(("idxvar", iv))
+                    for cond in gen.ifs:
+                        visit(cond, inner)
+                if isinstance(n, ast.DictComp):
+                    visit(n.key, inner)
+                    visit(n.value, inner)
+                else:
+                    visit(n.elt, inner)
+                return
             if isinstance(n, ast.Name):
                 if isinstance(n.ctx, ast.Load) and n.id in env:
                     self.use(n, env, node, raising)
                 return
             for ch in ast.iter_child_nodes(n):
-                visit(ch)
+                visit(ch, env)
+            if isinstance(n, ast.Subscript) and self.collect:
+                self.index_use(n, env)
             if isinstance(n, ast.Call) and self.collect:
                 direct = [a for a in list(n.args) + [k.value for k in n.keywords] if isinstance(a, ast.Name) and a.id in env
                           and any(c in (NP, PD) for c in env[a.id])]
@@ -1043,10 +1103,7 @@ class _FnRun:
         if a == "shape":
             # X.shape[k]
             if isinstance(gp, ast.Subscript) and gp.value is p:
-                k = gp.slice
-                kv = k.value if isinstance(k, ast.Constant) else (
-                    -k.operand.value if isinstance(k, ast.UnaryOp) and isinstance(k.op, ast.USub)
-                    and isinstance(k.operand, ast.Constant) and isinstance(k.operand.value, int) else None)
+                kv = _const_int(gp.slice)
                 if isinstance(kv, int) and not isinstance(kv, bool) and (kv >= 2 or kv <= -3) and PD in states:
                     self.viol("panel.shape[%d]" % kv, "shape[%d] of a nested DataFrame does not exist (the time axis is only "
                               "an axis of the 3-d numpy container)" % kv, gp)
@@ -1230,10 +1287,17 @@ class _FnRun:
 
 
 def _const_int(e):
+    """Integer value of a literal expression (constants folded through unary minus and + - *)."""
     if isinstance(e, ast.Constant) and isinstance(e.value, int) and not isinstance(e.value, bool):
         return e.value
-    if isinstance(e, ast.UnaryOp) and isinstance(e.op, ast.USub) and isinstance(e.operand, ast.Constant):
-        return -e.operand.value
+    if isinstance(e, ast.UnaryOp) and isinstance(e.op, ast.USub):
+        v = _const_int(e.operand)
+        return -v if v is not None else None
+    if isinstance(e, ast.BinOp) and isinstance(e.op, (ast.Add, ast.Sub, ast.Mult)):
+        a, b = _const_int(e.left), _const_int(e.right)
+        if a is None or b is None:
+            return None
+        return a + b if isinstance(e.op, ast.Add) else (a - b if isinstance(e.op, ast.Sub) else a * b)
     return None
 
 
